@@ -649,7 +649,7 @@ PROPS = {
         ],
         rule=RAWDB_RULE + "; histories are generated as for C01/C02 (files kept near 1 MiB, writes ≤ 20 kB) with a flush early in the case; after the first completed flush EVERY event boundary is a crash point; per point: sync-only image, all-written image, for every dirty metadata page three single-page deviations, and 6 (quick) random per-page mixtures of all versions since the last sync of each file; the real Database::open runs on every image",
         assumptions=["4 KiB page writes are atomic; file-length changes are durable in order; fdatasync makes every page stored through the shared mapping durable; a page not stored to since the last sync keeps its synced content (the OS contract of DESIGN.md §7)", "hook H2 (durability event tap) reports every store / set_len / sync / punch"],
-        level_text="Lean 4 theorem C05_untouched over the durability model of a file (adversary stronger than the property's: a page stored to since the last sync may hold ANY content after the crash): take the file right after a sync and let any sequence of later stores, hole punches, syncs and file growth happen, none storing into the pages of [a,b): then in EVERY crash image, at every later point, the bytes of [a,b) are exactly the synced ones; a metadata slot is exactly one page, so an untouched slot is byte-identical in every crash image (C05_slot_atomic); right after a sync the only crash image is the file itself (C05_sync_exact); on the extracted call orders of Database::flush the data file is synced before the metadata file and freed extents are promoted only after a metadata sync, on both paths (C05_order). That later operations never store into an untouched flushed region's extent is C01/C02 (allocator hands out free extents only; extents become free only after the sync that made their release durable) and is validated by the crash engine: real event streams, crash images at every event boundary, real open, oracles: opens, extents disjoint and inside the file, untouched flushed regions intact; plus event-stream correspondence with the model. The reduction from the rawdb model to that theorem is proved as well (Props/C05History.lean, Lemmas/CrashKeep*.lean): keep_step — a request that does not name region j leaves j's metadata alone, and every event it appends (all four placement paths of write_with on other regions incl. the relocation copy, creation, removal, retain, flush, compaction's punching, file growth) stores nothing into the pages [start, start+ceil_page(len)) of j and never cuts the file below them; C05_history_data / C05_history — for EVERY well-formed history up to a sync, EVERY well-formed continuation that does not name the region, EVERY crash point (any number of the continuation's events, also inside a request) and EVERY crash image, the region's slot still says the same name, start, length and reservation and every byte of its data is in the image exactly as at the sync.",
+        level_text="Lean 4 theorem C05_untouched over the durability model of a file (adversary stronger than the property's: a page stored to since the last sync may hold ANY content after the crash): take the file right after a sync and let any sequence of later stores, hole punches, syncs and file growth happen, none storing into the pages of [a,b): then in EVERY crash image, at every later point, the bytes of [a,b) are exactly the synced ones; a metadata slot is exactly one page, so an untouched slot is byte-identical in every crash image (C05_slot_atomic); right after a sync the only crash image is the file itself (C05_sync_exact); on the extracted call orders of Database::flush the data file is synced before the metadata file and freed extents are promoted only after a metadata sync, on both paths (C05_order). That later operations never store into an untouched flushed region's extent is C01/C02 (allocator hands out free extents only; extents become free only after the sync that made their release durable) and is validated by the crash engine: real event streams, crash images at every event boundary, real open, oracles: opens, extents disjoint and inside the file, untouched flushed regions intact; plus event-stream correspondence with the model. The reduction from the rawdb model to that theorem is proved as well (Props/C05History.lean, Lemmas/CrashKeep*.lean): keep_step — a request that does not name region j leaves j's metadata alone, and every event it appends (all four placement paths of write_with on other regions incl. the relocation copy, creation, removal, retain, flush, compaction's punching, file growth) stores nothing into the pages [start, start+ceil_page(len)) of j and never cuts the file below them; C05_history_data / C05_history — for EVERY well-formed history up to a sync, EVERY well-formed continuation that does not name the region, EVERY crash point (any number of the continuation's events, also inside a request) and EVERY crash image, the region's slot still says the same name, start, length and reservation and every byte of its data is in the image exactly as at the sync; C05_history_slot — the same for the METADATA file: no later request writes the region's slot or cuts the file below it, so the slot's 4096 bytes are the synced ones in every crash image (the region comes back with its name, start, length, reservation).",
         level_note="Trusted: Lean kernel + standard axioms; the OS contract above; hand-written models; the durability tap. F10 (no metadata sync before promoting holes when no region is dirty) found in design reading, reproduced as event order, repaired by a fix: commit. Not proved in Lean: that the metadata FILE of a crash image decodes to a disjoint layout (ordering argument C05_order + slot atomicity, checked on real images by the crash engine), and the 'sync-only' second sentence of the property (never a mixture), covered by the sync-only images of the crash engine.",
         technique="Lean 4 proof (invariant over event sequences in a page-granular durability model) + crash-image enumeration on real event streams with real recovery",
     ),
